@@ -84,7 +84,19 @@ two sealed message packets it sends under the same key and the same counter are 
 theorem counter_nonces_distinct (c : Cfg) (evs : List Ev) (hw : ContactsWF evs) :
     ∀ a ∈ sentSealed (outputs c evs), ∀ b ∈ sentSealed (outputs c evs),
       a.1 = b.1 → a.2.1 = b.2.1 → a.2.2 = b.2.2 := by
-  sorry
+  have h0 : CI c [] ({} : HState).sessions ({} : HState).challenges ({} : HState).active
+      ({} : HState).fresh.eph ({} : HState).fresh.cd [] :=
+    { nodup := List.Pairwise.nil
+      disj := fun _ h => by cases h
+      bound := fun _ h => by cases h
+      oldS := fun _ h => by cases h
+      oldH := fun _ h => by cases h
+      res := fun _ h => by cases h
+      chOk := fun _ h => by cases h
+      chDist := List.Pairwise.nil
+      self := fun _ h => by cases h
+      actOk := fun _ h => by cases h }
+  exact trace_C c evs {} [] h0
 
 /-- The counter of a session only grows, and every sealed message carries the counter value
 reached when it was made. -/
@@ -159,5 +171,60 @@ theorem eviction_is_lru (c : Cfg) (na : NA) (sess : Session) (st : HState × Lis
   | nil => simp [h] at hfull; omega
   | cons x xs => simp
 
+
+/-! ### Non-vacuity -/
+namespace C02Ex
+
+def exCfg : Cfg :=
+  { localId := 1, localSeq := 1, localRec := { id := 1, seq := 1, udp4 := some 10, udp6 := none },
+    requestRetries := 1, requestTimeout := 1000, sessionTtl := 10, sessionCap := 4, listen := [],
+    findnode0 := 0 }
+def exAddr : Addr := { v6 := false, n := 20 }
+def exNA : NA := { id := 2, addr := exAddr }
+def exKeys : Keys :=
+  { enc := { eph := 1000001, cd := 7, ini := 1, rcp := 2, toRcp := true },
+    dec := { eph := 1000001, cd := 7, ini := 1, rcp := 2, toRcp := false } }
+def exSess : Session := { keys := exKeys }
+def exState : HState := { sessions := [(exNA, exSess, 0)] }
+def exCt (ok : Bool) : Ct := .enc exKeys.dec 55 3 (.request 7 3) ok
+
+
+/-- A sealed message under the session's decryption key, with the right nonce and associated data, IS
+delivered (the hypotheses of `delivered_was_sealed` are inhabited). -/
+example : Out.request exNA 7 3 ∈ (step exCfg exState (.dgram exAddr (.message 2 55 (exCt true)))).2 := by decide
+
+/-- The same message presented with the wrong associated data is not delivered (a WHOAREYOU goes out). -/
+example : (step exCfg exState (.dgram exAddr (.message 2 55 (exCt false)))).2 = [.wru exNA 55] := by decide
+
+/-- A concrete expired session: the hypotheses of `expired_session_not_used` hold. -/
+example : ({ exState with rt := 100 } : HState).sessions.find? (·.1 == exNA) = some (exNA, exSess, 0) ∧
+    0 + exCfg.sessionTtl < ({ exState with rt := 100 } : HState).rt ∧
+    exCfg.listen.contains exNA.addr = false := by decide
+
+/-- … and `expired_session_not_used` applies to it: even a correctly sealed message is answered with
+WHOAREYOU once the session has expired. -/
+example : (step exCfg { exState with rt := 100 } (.dgram exAddr (.message 2 55 (exCt true)))).2 = [.wru exNA 55] :=
+  (expired_session_not_used exCfg { exState with rt := 100 } exNA exSess 0 (by decide) (by decide) (by decide)).2 55 _
+
+def exEvs : List Ev :=
+  [ .appRequest { na := exNA, record := some { id := 2, seq := 1, udp4 := some 20, udp6 := none } } 5 1,
+    .dgram exAddr (.whoareyou 1000001 77 0),
+    .appRequest { na := exNA, record := none } 6 1,
+    .appResponse exNA 9 (.other 0) ]
+
+/-- A history with a handshake and two sealed messages under the same key: counters 1 and 2. -/
+example : (sentSealed (outputs exCfg exEvs)).map (fun x => (x.1, x.2.1)) =
+    [({ eph := 1000001, cd := 77, ini := 1, rcp := 2, toRcp := true }, 1),
+     ({ eph := 1000001, cd := 77, ini := 1, rcp := 2, toRcp := true }, 2)] := by decide +kernel
+
+def exCfg2 : Cfg := { exCfg with requestRetries := 2 }
+/-- With a retry left, the request timer retransmits the stored packet: the same (key, counter) appears
+twice in the history — the case `counter_nonces_distinct` identifies as "the same packet". -/
+example : (sentSealed (outputs exCfg2 (exEvs ++ [.adv 1000]))).map (fun x => (x.1, x.2.1)) =
+    [({ eph := 1000001, cd := 77, ini := 1, rcp := 2, toRcp := true }, 1),
+     ({ eph := 1000001, cd := 77, ini := 1, rcp := 2, toRcp := true }, 2),
+     ({ eph := 1000001, cd := 77, ini := 1, rcp := 2, toRcp := true }, 1)] := by decide +kernel
+
+end C02Ex
 
 end Discv5.H
